@@ -43,7 +43,7 @@ cValsInt == <<RI(1), RI(-2), RI(3), RI(-1), RI(2), RI(0), RI(-3)>>
 cDts == <<RQ(1,8), RQ(1,4), RQ(1,2), RI(1), RI(0), RQ(-1,4)>>
 cDts2 == <<RQ(1,4), RQ(1,2), RI(0)>>
 cCalVals == <<RI(2), RI(-1), RQ(3,2), RI(-3)>>
-cPNoise == <<RI(1), RI(2), RI(3), RQ(1,2)>>
+cPNoise == <<RI(1), RI(2), RI(0), RI(3), RQ(1,2)>>      \* (zero noise for a declared control is valid: only negative is not)
 cSNoise == <<RI(1), RI(3), RI(2), RI(5), RI(4)>>
 cKsNone == {NoGate}
 cKsAll == {NoGate, RI(1), RI(3), RI(5), RQ(1,2), RQ(322,125), RQ(1,256)}
